@@ -113,6 +113,14 @@ let () = each_line (fun line ->
       let b = match bo with Some b -> b | None -> [] in
       let got = if zi r = 0 then "EMPTY" else hex_of_bytes (List.filteri (fun i _ -> i < zi r) b) in
       Printf.sprintf "rp=%s bc=%s" got got
+    | "sub" :: cap :: va :: vb :: vc :: _ ->
+      let cap = int_of_string cap in
+      if cap = 0 then "r=0 b=-" else begin
+        let i32 s = let v = int_of_string s in z_of_int (if v < 0 then v + 4294967296 else v) in
+        let one name v = enc_spec (bytes_of_hex name) [z_of_int 105] [P4 (i32 v)] in
+        let msgs = [one "2f61" va; one "2f626364" vb; one "2f6566676869" vc] in
+        let (r, b) = get (subtree_serialize (fill cap) msgs) in
+        Printf.sprintf "r=%s b=%s" (zs r) (hex_of_bytes b) end
     | "pm" :: h :: _ -> Printf.sprintf "p=%d" (if get (bundle_p (bytes_of_hex h)) then 1 else 0)
     | "raw" :: h :: _ ->
       let m = bytes_of_hex h in
